@@ -40,7 +40,7 @@ META = dict(
     ],
     outside="fully anisotropic tensors (property lists isotropic/diagonal only); PML; sources; shapes beyond the listed ones; float round-off",
     bounds=dict(quick=dict(shapes=[(3, 3, 3), (4, 3, 2)], steps="one step from an arbitrary state (inductive)"),
-                thorough=dict(shapes=[(3, 3, 3), (4, 3, 2)], seeds=3)),
+                thorough=dict(shapes=[(3, 3, 3), (4, 3, 2)], seeds=5)),
     timeout_ms=dict(quick=120000, thorough=600000),
 )
 
@@ -60,12 +60,12 @@ _MATS = ("iso", "diag", "diag_mu", "lossy")
 
 def cases(tier, seed):
     """quick: the wrap-metric configurations plus every 11th combination on two shapes.  thorough: the same selection rule
-    with three material/width seeds (configurations of the kinds the quick tier covers: 25-30 s each).  Measured and
+    with five material/width seeds (configurations of the kinds the quick tier covers: 25-30 s each).  Measured and
     therefore not in the thorough tier: every-3rd-combination sets (70-160 cases) did not finish within 50 minutes here --
     lossy + Bloch cases on 4x3x2 and larger take minutes each."""
     out = []
     shapes = [(3, 3, 3), (4, 3, 2)]
-    seeds = [seed] if tier == "quick" else [seed, seed + 1, seed + 2]
+    seeds = [seed] if tier == "quick" else [seed + k for k in range(5)]
     for si, shape in enumerate(shapes):
         for bi, b in enumerate(_B):
             for gi, g in enumerate(_GRIDS):
